@@ -414,6 +414,7 @@ func (i *interpreter) chanRecv(c *channel) (value, bool) {
 }
 
 func (i *interpreter) chanSend(c *channel, v value) {
+	v = copyValue(v)
 	s := i.sched
 	s.yield("send")
 	if c == nil {
